@@ -87,6 +87,18 @@ def subrange(ctx, pts, left, right, family):
         return
     if got.shape != want.shape or not np.array_equal(got, want):
         ctx.fail('predicate', 'sub-range distances are the distances of exactly that sub-range', 'linear_fit.perpendicular_distance_index', case, dict(impl=got.tolist(), expected=want.tolist()))
+    # the same clause against the DEFINITION (exact-Q distance of each point of the sub-range to the line through pts[left], pts[right]),
+    # independent of perpendicular_distance_points
+    if not np.array_equal(pts[left], pts[right]) and got.shape == (right - left + 1,):
+        d = ctx.get_driver()
+        spread = float(np.max(np.abs(pts[left:right + 1] - pts[left])) + 1e-300) ** 2
+        for j in range(left, right + 1):
+            q = F(d.call('geom', ['perpSq', P(pts[j]), P(pts[left]), P(pts[right])])[0])
+            ctx.corr_checked += 1
+            if not close(float(got[j - left]) ** 2, q, spread * 1e-3):
+                ctx.fail('predicate', 'sub-range distance is the distance to the line through the sub-range end points (definition)', 'linear_fit.perpendicular_distance_index', case,
+                         dict(index=j, impl_sq=float(got[j - left]) ** 2, model=float(q)))
+                break
     full = np.asarray(lf.perpendicular_distance(pts), float)
     want2 = np.asarray(lf.perpendicular_distance_points(pts, pts[0], pts[-1]), float)
     if not np.array_equal(full, want2):
@@ -228,7 +240,13 @@ def run(ctx):
         pts = np.column_stack([x, y])
         left = rng.randrange(0, n - 1)
         right = rng.randrange(left + 1, n)
-        subrange(ctx, pts, left, right, 'subrange')
+        fam = 'subrange'
+        u = rng.random()
+        if u < 0.1:
+            pts, fam = pts * 2.0 ** -30, fam + '@tiny30'
+        elif u < 0.2:
+            pts, fam = pts + 2.0 ** 30, fam + '@off30'
+        subrange(ctx, pts, left, right, fam)
     for _ in range(300 if quick else 6000):
         r1 = (gp(rng, 8, 1.0), gp(rng, 8, 1.0))
         r2 = (gp(rng, 8, 1.0), gp(rng, 8, 1.0)) if rng.random() < 0.8 else r1
